@@ -16,10 +16,12 @@ import (
 	"sort"
 	"strings"
 	"testing"
+	"time"
 
 	"github.com/samsarahq/thunder/batch"
 	"github.com/samsarahq/thunder/graphql"
 	"github.com/samsarahq/thunder/graphql/introspection"
+	"github.com/samsarahq/thunder/reactive"
 	"github.com/samsarahq/thunder/verifharness/vlib"
 )
 
@@ -95,6 +97,7 @@ func TestCheck(t *testing.T) {
 	run.Assume("the reserved \"__key\" marker the executor adds to keyed objects (consumed by package diff) is not counted as a selected field")
 	run.Assume("argument literals for advertised scalars: Time as RFC 3339 string, bytes as base64 string, unsigned ints as non-negative; pagination arguments other than a small `first` are not passed (their values carry cursor/sort semantics)")
 	run.Assume("a by-construction-valid query uses unique response names except for identical (name,args) duplicates; fragments on object types always carry the enclosing type as type condition")
+	reactive.WriteThenReadDelay = 0 // only delays re-runs; nothing here invalidates
 	nq := run.N(40, 100)
 	n := run.N(1000, 20000)
 	run.Each(n, 8, func(i int) {
@@ -216,7 +219,7 @@ func runSchema(run *vlib.Run, l *local, i, nq int) {
 		s.salt.Store(rq.Int63())
 		text := render(adv, doc, nil)
 		run.Case(s.shape+"|"+text, nontrivial)
-		accepted := evalValid(run, l, i, q, s, adv, built, doc, text)
+		accepted := evalValid(run, l, i, q, s, adv, built, doc, qf, text)
 		if !accepted {
 			continue
 		}
@@ -268,6 +271,47 @@ func execute(s *schemaInst, root graphql.Type, q *graphql.Query) (val interface{
 	e := graphql.NewExecutor(&recoveringScheduler{inner: graphql.NewImmediateGoroutineScheduler(), st: st})
 	val, err = e.Execute(batch.WithBatching(context.Background()), root, nil, q)
 	return val, st, err
+}
+
+// executeInRerunner executes q the way thunder's HTTP and websocket servers
+// do: inside a reactive.Rerunner with batching, which is the only way the
+// reactive result cache of Expensive fields is used.
+func executeInRerunner(s *schemaInst, root graphql.Type, q *graphql.Query) (val interface{}, st *execState, err error, done bool) {
+	st = &execState{}
+	s.exec.Store(st)
+	defer s.exec.Store(nil)
+	type result struct {
+		v   interface{}
+		err error
+	}
+	ch := make(chan result, 1)
+	e := graphql.NewExecutor(&recoveringScheduler{inner: graphql.NewImmediateGoroutineScheduler(), st: st})
+	rr := reactive.NewRerunner(context.Background(), func(ctx context.Context) (interface{}, error) {
+		var res result
+		func() {
+			defer func() {
+				if p := recover(); p != nil {
+					st.mu.Lock()
+					st.panics = append(st.panics, fmt.Sprintf("%v\n%s", p, vlib.Trunc(string(debug.Stack()), 1500)))
+					st.mu.Unlock()
+				}
+			}()
+			res.v, res.err = e.Execute(batch.WithBatching(ctx), root, nil, q)
+		}()
+		select {
+		case ch <- res:
+		default:
+		}
+		return nil, res.err
+	}, graphql.DefaultMinRerunInterval, false)
+	defer rr.Stop()
+	select {
+	case r := <-ch:
+		return r.v, st, r.err, true
+	case <-time.After(60 * time.Second):
+		// not a verdict: the run is reported as inconclusive
+		return nil, st, nil, false
+	}
 }
 
 func witness(i, q int, s *schemaInst, text string, extra map[string]interface{}) map[string]interface{} {
@@ -350,7 +394,7 @@ func selectsUnion(doc *qDoc, names map[string]bool) bool {
 	return found
 }
 
-func evalValid(run *vlib.Run, l *local, i, qi int, s *schemaInst, adv *advSchema, built *graphql.Schema, doc *qDoc, text string) bool {
+func evalValid(run *vlib.Run, l *local, i, qi int, s *schemaInst, adv *advSchema, built *graphql.Schema, doc *qDoc, qf map[string]bool, text string) bool {
 	root, rootName := rootOf(built, adv, doc)
 	l.add("valid_sent", 1)
 	q, stage, err := prepare(root, text)
@@ -474,6 +518,62 @@ func evalValid(run *vlib.Run, l *local, i, qi int, s *schemaInst, adv *advSchema
 		}
 	} else {
 		l.add("conforming_responses", 1)
+	}
+
+	// second leg: the same query inside a reactive.Rerunner (every query that
+	// selects one field under two aliases, and a share of the others)
+	if usedDoc != doc || !(qf["same_field_two_aliases"] || qi%4 == 0) {
+		return true
+	}
+	q2, _, err := prepare(root, text)
+	if err != nil {
+		run.Broken(fmt.Sprintf("case %d query %d: accepted query rejected when prepared again: %v", i, qi, err))
+		return true
+	}
+	l.add("rerunner_leg", 1)
+	if qf["expensive_field_two_aliases"] {
+		l.add("rerunner_leg:expensive_field_two_aliases", 1)
+	}
+	val2, st2, xerr2, done := executeInRerunner(s, root, q2)
+	if !done {
+		run.Inconclusive(fmt.Sprintf("case %d query %d: no result from the Rerunner leg within 60 s", i, qi))
+		return true
+	}
+	if len(st2.panics) > 0 || xerr2 != nil {
+		w := witness(i, qi, s, text, map[string]interface{}{"leg": "inside reactive.Rerunner with batch.WithBatching (as the HTTP handler executes)",
+			"what": "a query that executes bare fails inside a reactive.Rerunner"})
+		if xerr2 != nil {
+			w["err"] = xerr2.Error()
+		}
+		if len(st2.panics) > 0 {
+			w["panic"] = st2.panics[0]
+		}
+		run.Violation(i, "", w)
+		return true
+	}
+	b2, err := json.Marshal(val2)
+	if err != nil {
+		run.Violation(i, "", witness(i, qi, s, text, map[string]interface{}{"leg": "rerunner", "what": "response is not JSON-serialisable", "err": err.Error()}))
+		return true
+	}
+	var resp2 interface{}
+	if err := json.Unmarshal(b2, &resp2); err != nil {
+		run.Violation(i, "", witness(i, qi, s, text, map[string]interface{}{"leg": "rerunner", "what": "response JSON does not re-parse", "err": err.Error()}))
+		return true
+	}
+	chk2 := &checker{a: adv, doc: doc, s: s, counts: map[string]int{}}
+	chk2.object(resp2, rootName, []*qSelSet{doc.Root}, "$")
+	if len(chk2.mism) > 0 {
+		ms := chk2.mism
+		if len(ms) > 8 {
+			ms = ms[:8]
+		}
+		l.add("rerunner_leg_nonconforming:"+ms[0].Kind, 1)
+		run.Violation(i, ms[0].Class, witness(i, qi, s, text, map[string]interface{}{
+			"leg":  "inside reactive.Rerunner with batch.WithBatching (as the HTTP handler executes); the bare Execute of the same query conformed",
+			"what": "response does not conform to the advertised types", "mismatches": ms, "response": vlib.Trunc(string(b2), 2500)}))
+	} else {
+		l.add("rerunner_leg_conforming", 1)
 	}
 	return true
 }
